@@ -916,6 +916,9 @@ func provide(input OmegaInput) (output OmegaOutput) {
 
 	// a = d[s*] or nil,  d = (x_u)_d
 	account, accountExists := input.Addition.ResultContextX.PartialState.ServiceAccounts[s]
+	if input.VM.Registers[7] != 0xffffffffffffffff && input.VM.Registers[7] > math.MaxUint32 {
+		accountExists = false // beyond the service-id range: names no service
+	}
 	if !accountExists {
 		// otherwise if a = nil
 		input.VM.Registers[7] = WHO
